@@ -139,6 +139,13 @@ func c07Specs() map[string]*c07Spec {
 		{Name: "b", Deps: []Ref{DS("s", "=")}, Cmds: []C{P()}},
 		{Name: "s", Run: "once", Cmds: []C{P(), F()}},
 	}}}
+	// deferred task calls hand the caller's slot back like ordinary task calls do
+	m["deferred-task-calls"] = &c07Spec{pg: &Prog{Tasks: []*T{
+		{Name: "root", Deps: []Ref{D("a"), D("b")}, Cmds: []C{{Defer: true, Call: &Ref{Task: "x"}}, P()}},
+		{Name: "a", Cmds: []C{{Defer: true, Call: &Ref{Task: "x"}}, P()}},
+		{Name: "b", Cmds: []C{{Defer: true, Call: &Ref{Task: "x"}}, P()}},
+		{Name: "x", Cmds: []C{P()}},
+	}}, pairs: [][2]string{{"a", "b"}}}
 	m["parallel-roots"] = &c07Spec{pg: &Prog{Tasks: []*T{
 		{Name: "root", Deps: []Ref{DS("s", "=")}, Cmds: []C{P()}},
 		{Name: "r2", Deps: []Ref{DS("s", "=")}, Cmds: []C{P()}},
@@ -193,6 +200,23 @@ func c07Units(tier string) []*Unit {
 	}
 	if tier == "thorough" {
 		us = append(us, taskgraphUnits("taskgraph3", []int{1}, 2)...)
+	}
+	// run-once tasks of an included Taskfile whose names share the last segment, one depending
+	// on the other: two executions, no waiting on oneself
+	for _, n := range []int{0, 1} {
+		files := map[string]string{
+			"Taskfile.yml": "version: '3'\nincludes:\n  inc: ./inc.yml\ntasks:\n  root:\n    deps: ['inc:build']\n    cmds:\n      - printf '%s\\n' 'P|root|0|@|'\n",
+			"inc.yml": "version: '3'\ntasks:\n  'build':\n    run: once\n    deps: ['docker:build']\n    cmds:\n      - printf '%s\\n' 'P|inc:build|0|=|'\n" +
+				"  'docker:build':\n    run: once\n    cmds:\n      - printf '%s\\n' 'P|inc:docker:build|0|=|'\n",
+		}
+		pg := &Prog{Tasks: []*T{
+			{Name: "root", Deps: []Ref{DS("inc:build", "=")}, Cmds: []C{P()}},
+			{Name: "inc:build", Run: "once", Deps: []Ref{DS("inc:docker:build", "=")}, Cmds: []C{P()}},
+			{Name: "inc:docker:build", Run: "once", Cmds: []C{P()}},
+		}}
+		sc := &vlab.Scenario{Name: "once-in-include-dep-on-same-last-segment/N" + concName(n), Files: files, Spec: pg, Opts: vlab.Options{Concurrency: n},
+			Calls: []vlab.CallSpec{{Task: "root", Vars: [][2]string{{"VP", "@"}}}}}
+		us = append(us, &Unit{Name: sc.Name, Sc: sc, Bound: 1, Prune: true, Check: both(c07Check(pg, n, true), c01Check(pg)), Weight: 3})
 	}
 	// cyclic references: must end with 204 (or 201 wrapping it), not hang. One default schedule
 	// plus the bound-1 schedules (1000 nested calls per execution).
